@@ -15,7 +15,7 @@ type cteShape struct {
 	name  string
 	kind  string
 	text  string
-	uses  []Use // beyond the reads of $T / $U given below
+	uses  []Use  // beyond the reads of $T / $U given below
 	readT string // clause in which the real $T is read ("" = not at all)
 	readU string
 	admin bool
